@@ -490,6 +490,7 @@ def replay(ctx: Ctx, payload: dict) -> SuiteResult:
 
 
 if __name__ == "__main__":
+    import gentie
     setup_repo_path()
     sys.path.insert(0, str(Path(__file__).resolve().parent))
     import c06_conc
@@ -500,7 +501,7 @@ if __name__ == "__main__":
                            "Pamiq.Clock.rate_between", "Pamiq.Clock.sleep_len",
                            "Pamiq.Clock.load_continues", "Pamiq.Clock.setScale_slip",
                            "Pamiq.Clock.clock_calls_atomic"],
-        suites=[suite_exhaustive, suite_random, suite_float, c06_conc.suite_concurrent], search=search, replay=replay,
+        suites=[gentie.suite_for("C06"), suite_exhaustive, suite_random, suite_float, c06_conc.suite_concurrent], search=search, replay=replay,
         assumptions=["IEEE-754 rounding is not modelled: cases use dyadic values on which every "
                      "float operation of time.py is exact, and are compared for equality",
                      "the real clock never steps backwards",
